@@ -112,6 +112,17 @@ def run_sd(case):
     cp = complex(c.correlation(tt))
     cm = complex(c.correlation(-tt))
     out.check_close("C(-t)=conj", cm, np.conj(cp), 10 * (8 * QABS + QREL * abs(cp)), "C(-t) vs conj C(t)")
+    # the symmetry also at large time arguments (strongly oscillatory integrands, |tau| * cutoff up to 800); only the
+    # symmetry is judged there, not the accuracy of the quadrature
+    import warnings
+    for x in ((30.0, 300.0, 800.0)[k % 3], 120.0):
+        tb = x / spec["wc"]
+        with warnings.catch_warnings():
+            warnings.simplefilter("ignore")
+            cpb = complex(c.correlation(tb))
+            cmb = complex(c.correlation(-tb))
+        out.check_close("C(-t)=conj/large-t", cmb, np.conj(cpb), 10 * (8 * QABS + QREL * abs(cpb)) + 1e-3 * abs(cpb.imag),
+                        f"C(-t) vs conj C(t) at |t| * cutoff = {x}")
     out.check_close("ref/correlation", cp, R.correlation(spec, tt),
                     10 * (8 * QABS + QREL * abs(cp)) + (5e-4 * abs(cp) if R.lowest_power(spec) < 1 and T > 0 else 0),
                     "C(t) vs R-corr")
